@@ -1,4 +1,6 @@
 import MpVerif.C06.Lemmas
+import MpVerif.C06.LemmasReal
+import Mathlib.Data.Rat.Floor
 /-!
 # C06 — property theorems
 
@@ -149,5 +151,202 @@ theorem C06_nvar (e : Env) (val : Val) (r : Nat) (l : List Nat) :
   simp only [ubOK, Con.eval, List.length_cons]
   push_cast
   linarith
+
+
+/-! ## if-then-else -/
+
+theorem smin_lb_left (a b : ER) (x : Rat) (ha : lbOK a x) (hb : b ≠ nan) : lbOK (smin a b) x := by
+  cases a <;> cases b <;> simp_all [smin, ER.lt, lbOK]
+  next p q => by_cases h : q < p <;> simp [h, lbOK] <;> linarith
+theorem smin_lb_right (a b : ER) (x : Rat) (hb : lbOK b x) (ha : a ≠ nan) : lbOK (smin a b) x := by
+  cases a <;> cases b <;> simp_all [smin, ER.lt, lbOK]
+  next p q => by_cases h : q < p <;> simp [h, lbOK] <;> linarith
+theorem smax_ub_left (a b : ER) (x : Rat) (ha : ubOK a x) (hb : b ≠ nan) : ubOK (smax a b) x := by
+  cases a <;> cases b <;> simp_all [smax, ER.lt, ubOK]
+  next p q => by_cases h : p < q <;> simp [h, ubOK] <;> linarith
+theorem smax_ub_right (a b : ER) (x : Rat) (hb : ubOK b x) (ha : a ≠ nan) : ubOK (smax a b) x := by
+  cases a <;> cases b <;> simp_all [smax, ER.lt, ubOK]
+  next p q => by_cases h : p < q <;> simp [h, ubOK] <;> linarith
+theorem ne_nan_of_lbOK {b : ER} {x : Rat} (h : lbOK b x) : b ≠ nan := by cases b <;> simp_all [lbOK]
+theorem ne_nan_of_ubOK {b : ER} {x : Rat} (h : ubOK b x) : b ≠ nan := by cases b <;> simp_all [ubOK]
+
+theorem isInt_of_commonType (e : Env) (val : Val) (h : Feasible e val) (vs : List Nat) (hc : commonType e vs = true) :
+    ∀ v ∈ vs, IsInt (val v) := by
+  intro v hv
+  have := (List.all_eq_true.mp hc) v hv
+  obtain ⟨hl, hu, hi⟩ := h v
+  rcases Bool.or_eq_true _ _ ▸ this with h1 | h1
+  · exact hi h1
+  · rw [Bool.and_eq_true] at h1
+    obtain ⟨hf, hint⟩ := h1
+    cases hlb : (e v).lb with
+    | fin p =>
+      cases hub : (e v).ub with
+      | fin q =>
+        simp only [isFixed, hlb, hub, ER.eq, decide_eq_true_eq] at hf
+        simp only [hlb, isInteger, ER.floor, ER.ceil, ER.eq, decide_eq_true_eq] at hint
+        rw [hlb] at hl; rw [hub] at hu
+        simp only [lbOK, ubOK] at hl hu
+        subst hf
+        have hx : val v = p := le_antisymm hu hl
+        rw [hx]
+        refine ⟨p.floor, ?_⟩
+        have h1 : ((p.floor : Int) : Rat) ≤ p := Rat.floor_le p
+        have h2 : p ≤ ((p.ceil : Int) : Rat) := Rat.le_ceil
+        have h3 : ((p.floor : Int) : Rat) = ((p.ceil : Int) : Rat) := hint
+        linarith
+      | ninf => simp [isFixed, hlb, hub, ER.eq] at hf
+      | pinf => simp [isFixed, hlb, hub, ER.eq] at hf
+      | nan => simp [isFixed, hlb, hub, ER.eq] at hf
+    | ninf =>
+      cases hub : (e v).ub <;> simp [isFixed, hlb, hub, ER.eq] at hf
+      rw [hub] at hu; simp [ubOK] at hu
+    | pinf => rw [hlb] at hl; simp [lbOK] at hl
+    | nan => rw [hlb] at hl; simp [lbOK] at hl
+
+/-- **if-then-else**: `[min(lb₁,lb₂), max(ub₁,ub₂)]` with the common type of the two branches contains the value,
+whatever the condition. -/
+theorem C06_ifthen (e : Env) (val : Val) (h : Feasible e val) (c t f : Nat) :
+    ∃ pre, prepro e (.ifthen c t f) = .keep pre (.ifthen c t f) ∧ pre.Contains (Con.eval tr trp val (.ifthen c t f)) := by
+  obtain ⟨tl, tu, _⟩ := h t
+  obtain ⟨fl, fu, _⟩ := h f
+  refine ⟨_, rfl, ?_⟩
+  simp only [preproIfThen, Con.eval]
+  by_cases hc : truthy (val c) = true
+  · simp only [hc, if_true]
+    refine fresh_range_sound _ _ _ _ (Or.inr (smin_lb_left _ _ _ tl (ne_nan_of_lbOK fl)))
+      (Or.inr (smax_ub_left _ _ _ tu (ne_nan_of_ubOK fu))) (fun hi => ?_)
+    exact isInt_of_commonType e val h [t, f] hi t (by simp)
+  · simp only [hc]
+    refine fresh_range_sound _ _ _ _ (Or.inr (smin_lb_right _ _ _ fl (ne_nan_of_lbOK tl)))
+      (Or.inr (smax_ub_right _ _ _ fu (ne_nan_of_ubOK tu))) (fun hi => ?_)
+    exact isInt_of_commonType e val h [t, f] hi f (by simp)
+
+/-! ## conditional (in)equalities -/
+
+theorem pre00 : (preBool.narrow (fin 0) (fin 0)).Contains (b2r false) ∧ (preBool.narrow (fin 0) (fin 0)).isConstant = true := by
+  refine ⟨?_, by decide +kernel⟩
+  simp [Pre.Contains, preBool, Pre.narrow, Pre.setType, smax, smin, ER.lt, lbOK, ubOK, b2r, IsInt.zero]
+theorem pre11 : (preBool.narrow (fin 1) (fin 1)).Contains (b2r true) ∧ (preBool.narrow (fin 1) (fin 1)).isConstant = true := by
+  refine ⟨?_, by decide +kernel⟩
+  simp [Pre.Contains, preBool, Pre.narrow, Pre.setType, smax, smin, ER.lt, lbOK, ubOK, b2r, IsInt.one]
+
+/-- **`FixEqualityResult`**: whenever it fixes the result of `body == rhs` to 0 or 1 from the body's bounds and type
+(any sound, NaN-tolerant bounds: linear or quadratic body), the comparison has that truth value on the whole box. -/
+theorem C06_fix_equality (b : Pre) (body rhs : Rat) (hb : b.ContainsW body) (p : Pre)
+    (hfix : fixEqualityResult b rhs preBool = some p) :
+    p.Contains (b2r (cmpKind 0 body rhs)) ∧ p.isConstant = true := by
+  obtain ⟨hl, hu, hi⟩ := hb
+  unfold fixEqualityResult at hfix
+  have hne_of_lt : (lt (fin rhs) b.lb = true ∨ lt b.ub (fin rhs) = true) → body ≠ rhs := by
+    rintro (h1 | h1) heq
+    · cases hlb : b.lb <;> simp_all [ER.lt, lbW, lbOK]; linarith
+    · cases hub : b.ub <;> simp_all [ER.lt, ubW, ubOK]; linarith
+  split at hfix
+  · next h1 =>
+    rw [Bool.or_eq_true] at h1
+    have hne := hne_of_lt h1
+    injection hfix with hp; subst hp
+    have : cmpKind 0 body rhs = false := by simp [cmpKind, hne]
+    rw [this]; exact pre00
+  · split at hfix
+    · next h2 =>
+      rw [Bool.and_eq_true] at h2
+      have heq : body = rhs := by
+        obtain ⟨h2a, h2b⟩ := h2
+        cases hlb : b.lb <;> cases hub : b.ub <;> simp_all [ER.eq, lbW, lbOK, ubW, ubOK]
+        linarith
+      injection hfix with hp; subst hp
+      have : cmpKind 0 body rhs = true := by simp [cmpKind, heq]
+      rw [this]; exact pre11
+    · split at hfix
+      · next h3 =>
+        rw [Bool.and_eq_true] at h3
+        have hne : body ≠ rhs := by
+          intro heq
+          have := hi h3.1
+          rw [heq] at this
+          obtain ⟨z, hz⟩ := this
+          have : ratIsInt rhs = true := by
+            rw [hz]; simp [ratIsInt]
+          simp [this] at h3
+        injection hfix with hp; subst hp
+        have : cmpKind 0 body rhs = false := by simp [cmpKind, hne]
+        rw [this]; exact pre00
+      · simp at hfix
+
+
+/-- **rounding of the right-hand side** of a conditional inequality whose body is integer-valued (`ceil` for `>=`/`<`,
+`floor` for `<=`/`>`): the comparison is unchanged at every integer body value — for every fractional or integer `rhs`. -/
+theorem C06_round_rhs (kind : Int) (hk : kind = -2 ∨ kind = -1 ∨ kind = 1 ∨ kind = 2) (bodyInt : Bool) (body rhs : Rat)
+    (hb : bodyInt = true → IsInt body) :
+    cmpKind kind body (roundRhs kind bodyInt rhs) = cmpKind kind body rhs := by
+  unfold roundRhs
+  split
+  · next hcond =>
+    rw [Bool.and_eq_true] at hcond
+    obtain ⟨z, rfl⟩ := hb hcond.1
+    rcases hk with rfl | rfl | rfl | rfl <;> simp only [cmpKind] <;> norm_num
+    · exact Rat.lt_ceil_iff
+    · exact Rat.le_floor_iff
+    · exact Rat.ceil_le_iff
+    · exact Rat.floor_lt_iff
+  · rfl
+
+/-! ## log / logA: narrowing of the *argument* -/
+
+/-- **logA**: the argument is narrowed to `[0, ∞)`; no point where the logarithm is defined (`x > 0`) is lost. -/
+theorem C06_loga_arg (e : Env) (a : Nat) (p x : Rat) (hx : 0 < x) :
+    ∃ l u, argNarrowing e (.unp .loga a p) = some (a, l, u) ∧ lbOK l x ∧ ubOK u x :=
+  ⟨fin 0, pinf, rfl, le_of_lt hx, trivial⟩
+
+/-- **log (partial)**: the argument's lower bound is raised to the double `1e-6` when `lb ≤ 0`; points `x ≥ 1e-6` are kept.
+The full statement (every `x > 0` is kept) is FALSE: see `C06_counterexample_log_arg`.
+
+  theorem C06_log_arg (e a x) (hx : 0 < x) : argNarrowing e (.un .log a) = some (a, l, u) → lbOK l x
+-/
+theorem C06_log_arg_partial (e : Env) (a : Nat) (x : Rat) (hx : logLbLit ≤ x) :
+    argNarrowing e (.un .log a) = none ∨
+    ∃ l u, argNarrowing e (.un .log a) = some (a, l, u) ∧ lbOK l x ∧ ubOK u x := by
+  by_cases h : le (e a).lb (fin 0) = true
+  · right; exact ⟨fin logLbLit, pinf, by simp [argNarrowing, h], hx, trivial⟩
+  · left; simp [argNarrowing, h]
+
+/-- **Counterexample (open finding C06-log-arg-lb)**: `x ∈ [0, 1]`, `log(x)`: the point `x = 2⁻³⁰ > 0` lies in the box and in
+the domain of `log`, but outside the narrowed bounds. -/
+theorem C06_counterexample_log_arg :
+    let e : Env := fun _ => { lb := fin 0, ub := fin 1, int := false }
+    let x : Rat := 1 / 2 ^ 30
+    InBox (e 0) x ∧ 0 < x ∧ ∃ l u, argNarrowing e (.un .log 0) = some (0, l, u) ∧ ¬ lbOK l x := by
+  refine ⟨⟨by simp [lbOK], by simp [ubOK]; norm_num, by simp⟩, by positivity,
+    fin logLbLit, pinf, by decide +kernel, ?_⟩
+  simp only [lbOK, logLbLit]; norm_num
+
+/-! ## transcendental ranges (over ℝ) -/
+
+/-- **exp, sin, cos, cosh, tanh, acos (lower), asin (upper)**: the ranges the code assigns (`[0,∞)`, `[−1,1]`, `[−1,1]`,
+`[1,∞)`, `[−1,1]`, `0 ≤`, `≤ Pi()`) hold for the real functions at every real argument. -/
+theorem C06_transcendental_ranges (x : ℝ) :
+    (0 ≤ Real.exp x) ∧ (-1 ≤ Real.sin x ∧ Real.sin x ≤ 1) ∧ (-1 ≤ Real.cos x ∧ Real.cos x ≤ 1) ∧ (1 ≤ Real.cosh x) ∧
+    (-1 ≤ Real.tanh x ∧ Real.tanh x ≤ 1) ∧ (0 ≤ Real.arccos x) ∧ (Real.arcsin x ≤ ((piLit : ℚ) : ℝ)) :=
+  real_ranges x
+
+/-- **Counterexample (open finding C06-pi-literal)**: `Pi()` is a double below π, so
+`−Pi()/2 ≤ asin x`, `acos x ≤ Pi()`, `|atan x| ≤ Pi()/2` all fail for some real `x` (at `x = −1`, `x = −1`, large `|x|`).
+The full statements `∀ x, −Pi/2 ≤ arcsin x`, `∀ x, arccos x ≤ Pi`, `∀ x, |arctan x| ≤ Pi/2` are therefore false. -/
+theorem C06_counterexample_pi_literal :
+    (Real.arcsin (-1) < -((piLit : ℚ) : ℝ) / 2) ∧ (((piLit : ℚ) : ℝ) < Real.arccos (-1)) ∧
+    (∃ x : ℝ, ((piLit : ℚ) : ℝ) / 2 < Real.arctan x) ∧ (∃ x : ℝ, Real.arctan x < -((piLit : ℚ) : ℝ) / 2) :=
+  real_pi_literal_cuts
+
+/-- the model's constants for these functions are exactly those ranges -/
+theorem C06_transcendental_model_constants :
+    preproUn .exp = ({} : Pre).narrow (fin 0) pinf ∧ preproUn .sin = ({} : Pre).narrow (fin (-1)) (fin 1) ∧
+    preproUn .cos = ({} : Pre).narrow (fin (-1)) (fin 1) ∧ preproUn .cosh = ({} : Pre).narrow (fin 1) pinf ∧
+    preproUn .tanh = ({} : Pre).narrow (fin (-1)) (fin 1) ∧ preproUn .acos = ({} : Pre).narrow (fin 0) (fin piLit) ∧
+    preproUn .asin = ({} : Pre).narrow (fin (-piLit / 2)) (fin piLit) ∧
+    preproUn .atan = ({} : Pre).narrow (fin (-piLit / 2)) (fin (piLit / 2)) ∧
+    preproUn .tan = {} ∧ preproUn .sinh = {} ∧ preproUn .asinh = {} ∧ preproUn .atanh = {} ∧ preproUn .log = {} :=
+  ⟨rfl, rfl, rfl, rfl, rfl, rfl, rfl, rfl, rfl, rfl, rfl, rfl, rfl⟩
 
 end MpVerif.C06
